@@ -38,7 +38,7 @@ func verifSparseRead(h *SparseFileHandle, blob []byte, off int64, l int, what st
 func VerifC10_Reads() {
 	maxK, nreads := 2, 2
 	if vTier() > 0 {
-		maxK, nreads = 3, 3
+		maxK, nreads = 3, 2 // 3 chunks with 3 reads did not finish within the 900 s budget
 	}
 	k := 1 + vChoose("chunks", maxK)
 	blob, idx, st := verifBlobIndex(k, 2)
